@@ -21,6 +21,7 @@
 // Violation keys: <family>:C11/<projection>/[after-SetScale/]<monitor>/<sphere|oblate|prolate>; configurations or points in
 // an INPUT regime with an identified defect mechanism report every monitor under regime:C11/<projection>/<regime>
 // (see build() and PtScope; the monitor name is in the witness), so that one mechanism = one key.
+#include "harness/value_semantics.hpp"   // long-lived projection objects are detached copies
 #include <GeographicLib/PolarStereographic.hpp>
 #include <GeographicLib/LambertConformalConic.hpp>
 #include <GeographicLib/AlbersEqualArea.hpp>
@@ -260,16 +261,16 @@ static int build(Model& M, PK pk, const EllCfg& e, const ParCfg& par, double k1,
   if (!M.docdomain && M.regime.empty()) M.regime = "parallels-outside-documented-accuracy-domain";
   try {
     if (pk == P_LCC) {
-      if (par.form == 1) M.lcc.reset(new LambertConformalConic(e.a, e.f, par.lat1, k1));
-      else if (par.form == 2) M.lcc.reset(new LambertConformalConic(e.a, e.f, par.lat1, par.lat2, k1));
-      else M.lcc.reset(new LambertConformalConic(e.a, e.f, par.s1, par.c1, par.s2, par.c2, k1));
+      if (par.form == 1) M.lcc.reset(vh::detached_new<LambertConformalConic>([&] { return LambertConformalConic(e.a, e.f, par.lat1, k1); }, [&] { return LambertConformalConic(e.a * 1.25, 0.01, 33.0, 45.0, 0.9); }));
+      else if (par.form == 2) M.lcc.reset(vh::detached_new<LambertConformalConic>([&] { return LambertConformalConic(e.a, e.f, par.lat1, par.lat2, k1); }, [&] { return LambertConformalConic(e.a * 1.25, 0.01, -20.0, 0.9); }));
+      else M.lcc.reset(vh::detached_new<LambertConformalConic>([&] { return LambertConformalConic(e.a, e.f, par.s1, par.c1, par.s2, par.c2, k1); }, [&] { return LambertConformalConic(e.a * 1.25, 0.01, 33.0, 45.0, 0.9); }));
       M.lccp = M.lcc.get();
     } else if (pk == P_ALB) {
-      if (par.form == 1) M.alb.reset(new AlbersEqualArea(e.a, e.f, par.lat1, k1));
-      else if (par.form == 2) M.alb.reset(new AlbersEqualArea(e.a, e.f, par.lat1, par.lat2, k1));
-      else M.alb.reset(new AlbersEqualArea(e.a, e.f, par.s1, par.c1, par.s2, par.c2, k1));
+      if (par.form == 1) M.alb.reset(vh::detached_new<AlbersEqualArea>([&] { return AlbersEqualArea(e.a, e.f, par.lat1, k1); }, [&] { return AlbersEqualArea(e.a * 1.25, 0.01, 33.0, 45.0, 0.9); }));
+      else if (par.form == 2) M.alb.reset(vh::detached_new<AlbersEqualArea>([&] { return AlbersEqualArea(e.a, e.f, par.lat1, par.lat2, k1); }, [&] { return AlbersEqualArea(e.a * 1.25, 0.01, -20.0, 0.9); }));
+      else M.alb.reset(vh::detached_new<AlbersEqualArea>([&] { return AlbersEqualArea(e.a, e.f, par.s1, par.c1, par.s2, par.c2, k1); }, [&] { return AlbersEqualArea(e.a * 1.25, 0.01, 33.0, 45.0, 0.9); }));
       M.albp = M.alb.get();
-    } else { M.ps.reset(new PolarStereographic(e.a, e.f, k1)); M.psp = M.ps.get(); }
+    } else { M.ps.reset(vh::detached_new<PolarStereographic>([&] { return PolarStereographic(e.a, e.f, k1); }, [&] { return PolarStereographic(e.a * 1.25, 0.01, 0.9); })); M.psp = M.ps.get(); }
   } catch (const GeographicErr& ex) { what = ex.what(); return 1; }
   M.ctor_panic = vh::hook::panics() - hp0;
   return 0;
